@@ -49,6 +49,9 @@ def shards(tier):
             out.append(("d24_lower", uppers[i:i + 4]))
         for mk in MAPKINDS:
             out.append(("evq", mk))
+        for mk in MAPKINDS:
+            if mk != "nomap":
+                out.append(("evs", mk, 0, 128, "quick"))
         out.append(("order", "pairs", 0, 1))
         out.append(("order", "mapmut", 0, 1))
         out.append(("order", "threads", 0, 1))
@@ -62,6 +65,10 @@ def shards(tier):
         for mk in MAPKINDS:
             for s0 in range(0, 64, 8):
                 out.append(("evt", mk, s0, s0 + 8))
+        for mk in MAPKINDS:
+            if mk != "nomap":
+                for t0 in range(0, 128, 16):
+                    out.append(("evs", mk, t0, t0 + 16, "full"))
         out.append(("order", "pairs", 0, 1))
         out.append(("order", "mapmut", 0, 1))
         out.append(("order", "threads", 0, 1))
@@ -368,6 +375,36 @@ def run_shard(shard):
         if dmap is not None and dmap.mapping != snap:
             add_violation(res, "C01:map-mutated", f"decoding mutated the instance map {mk}", {"bits": 24, "value": 0x8000, "dt": 0, "map": mk})
         sample(res, {"bits": 24, "scheme": "device/instance", "map": mk, "frames": n})
+    elif kind == "evs":
+        # every event scheme (not only device/instance) decoded WITH a map: "with or without an instance-type map"
+        _, mk, t0, t1, depth = shard
+        dmap, maptype = make_map(mk)
+        snap = dict(dmap.mapping)
+        if depth == "quick":
+            tops = [t for t in (0, 1, 5, 62, 63, 64, 65, 95, 96, 97, 126, 127) if t0 <= t < t1]
+            datas = list(range(16)) + [16, 0x155, 512, 1023]
+        else:
+            tops = range(t0, t1)
+            datas = range(1024)
+        n = 0
+        for top in tops:
+            for low6 in range(64):
+                basev = (top << 17) | (low6 << 10)          # bit 16 clear: an event message
+                for data in datas:
+                    v = basev | data
+                    mt = maptype
+                    if mk == "noentry" and top < 64 and low6 == 0x20 | 7:
+                        mt = 1                                  # the one instance the "noentry" map does know
+                    d = decode_check(res, 24, v, 0, dmap, mt, mk, from_frame, FF, Command)
+                    if d:
+                        res["distinct"].add((d[0], d[1], "evs", str(mk)))
+                    if n % 53 == 0:
+                        str_check(res, d, 24, v, 0, dmap, mk, from_frame, FF)
+                    n += 1
+        res["evaluations"] += n
+        if dmap.mapping != snap:
+            add_violation(res, "C01:map-mutated", f"decoding mutated the instance map {mk}", {"bits": 24, "value": 0, "dt": 0, "map": mk})
+        sample(res, {"bits": 24, "scheme": "all five event schemes", "map": mk, "frames": n})
     elif kind == "len":
         n = 0
         for bits in range(1, 65):
@@ -453,6 +490,9 @@ def replay(case):
         return run_shard(tuple(case["shard"]))["violations"]
     mk = case["map"]
     dmap, maptype = make_map(mk)
+    v = case["value"]
+    if mk == "noentry" and case["bits"] == 24 and not v >> 23 and (v >> 10) & 0x7F == 0x20 | 7 and not (v >> 16) & 1:
+        maptype = 1
     d = decode_check(res, case["bits"], case["value"], case["dt"], dmap, maptype, mk, from_frame, FF, Command)
     print("   decoded:", d)
     str_check(res, d, case["bits"], case["value"], case["dt"], dmap, mk, from_frame, FF)
